@@ -9,7 +9,24 @@ import (
 
 const unixToInternal int64 = (1969*365 + 1969/4 - 1969/100 + 1969/400) * 86400
 
+// monoTime (run parameter MONO_TIME=1): time.Now carries a monotonic reading, as the real one
+// does, and Time.Add on such a value advances the monotonic reading only (ext += d); the wall
+// field is left as it is.  Exact for everything that observes such values through Sub, Before,
+// After, Equal, Compare and IsZero (which use the monotonic reading when both operands carry
+// one); NOT for formatting or Unix*().  Avoids the division by 10^9 of the wall-clock
+// normalisation, which no solver here decides.
+var monoTime bool
+
+const wallToInternal int64 = (1884*365 + 1884/4 - 1884/100 + 1884/400) * 86400
+
 func timeValue(ns int64) value {
+	if monoTime {
+		abs := timeBase + ns
+		sec := abs/1_000_000_000 + unixToInternal - wallToInternal
+		nsec := abs % 1_000_000_000
+		wall := uint64(1)<<63 | uint64(sec)<<30 | uint64(nsec)
+		return structure{cint(wall), cint(uint64(ns + 1)), (*value)(nil)}
+	}
 	abs := timeBase + ns
 	sec := abs / 1_000_000_000
 	nsec := abs % 1_000_000_000
@@ -26,6 +43,24 @@ var timerHandles = map[*value]*timerHandle{}
 func init() {
 	intrinsics["time.Now"] = func(fr *frame, a []value) value {
 		return timeValue(theSched.now)
+	}
+	intrinsics["(time.Time).Add"] = func(fr *frame, a []value) value {
+		t, ok := a[0].(structure)
+		if !ok {
+			return notHandled{}
+		}
+		w, ok := t[0].(cint)
+		if !ok || uint64(w)>>63 == 0 {
+			return notHandled{}
+		}
+		ext, d := toTerm(t[1], 64), toTerm(a[1], 64)
+		sum := mkBin(OpAdd, ext, d)
+		zero := mkConst(0, 64)
+		ovf := mkBOr(mkBAnd(mkCmp(OpSlt, d, zero), mkCmp(OpSlt, ext, sum)), mkBAnd(mkCmp(OpSlt, zero, d), mkCmp(OpSlt, sum, ext)))
+		if theExec.decide(ovf, "time.Add: monotonic reading overflows") {
+			panic(unsupported("time.Time.Add overflowing the monotonic reading (outside the MONO_TIME model)"))
+		}
+		return structure{t[0], fromTerm(sum, true), t[2]}
 	}
 	intrinsics["time.Sleep"] = func(fr *frame, a []value) value {
 		d := int64(asInt64(a[0]))
